@@ -790,4 +790,47 @@ def r10_no_shared_node_state(a, tier):
     return rep
 
 
-RULES = [r1_child_discovery, r2_traversals, r3_attribute_names, r4_declared_bases, r5_construction, r6_dispatch_namespace, r7_generated_model_classes, r8_dispatch_history, r9_synthesis_registry, r10_no_shared_node_state]
+def r11_walk_reaches_containers(a, tier):
+    from ..minieval import Unsupported
+    from ..modelinterp import Bound, Hook, ModelInterp, Stub
+    rep = RuleReport(
+        'C07.R11',
+        'NodeWalker.walk reaches every node it is handed, however it is packed: interpreted with a dispatcher that knows two node classes, walk(x) '
+        'hands a node to its handler (with the extra positional and keyword arguments) and returns the handler\'s result; walks every element of a '
+        'list / tuple in order and every value of a dict, also nested, and returns a container of the same kind holding the results; returns '
+        'anything else as it is',
+        floor=8,
+    )
+    fn = a.p.func('tatsu.walkers.NodeWalker.walk')
+    N1, N2 = Stub('tatsu.objectmodel.node.Node', tag='n1'), Stub('tatsu.objectmodel.node.Node', tag='n2')
+    calls: list = []
+
+    def handler(walker, node, *args, **kwargs):
+        calls.append((node._attrs['tag'], args, tuple(sorted(kwargs.items()))))
+        return ('walked', node._attrs['tag'])
+    me = Stub('tatsu.walkers.NodeWalker', _walker_cache={})
+    me._attrs['_find_walker'] = Hook(lambda node, *x, **k: Hook(handler) if isinstance(node, Stub) and node._cls.endswith('.Node') else None)
+    W1, W2 = ('walked', 'n1'), ('walked', 'n2')
+    cases = [
+        ('a node', N1, W1, ['n1']), ('a list of nodes', [N1, N2], [W1, W2], ['n1', 'n2']), ('a tuple of nodes', (N2, N1), (W2, W1), ['n2', 'n1']),
+        ('a dict of nodes', {'a': N1, 'b': N2}, {'a': W1, 'b': W2}, ['n1', 'n2']), ('a list inside a dict inside a list', [{'k': [N1, 'x', N2]}], [{'k': [W1, 'x', W2]}], ['n1', 'n2']),
+        ('a scalar', 'text', 'text', []), ('None', None, None, []), ('an empty list', [], [], []), ('a number', 0, 0, []),
+    ]
+    for what, arg, want, order in cases:
+        calls.clear()
+        it = ModelInterp(a, {'as_namedtuple': Hook(lambda x: None), 'callable': Hook(lambda x: isinstance(x, Hook) or callable(x))})
+        try:
+            got = it.call_bound(Bound(me, fn), [arg, 'EXTRA'], {'depth': 1})
+        except Unsupported as e:
+            raise AnalysisError(f'C07.R11: cannot interpret NodeWalker.walk on {what}: {e}') from e
+        visited = [c[0] for c in calls]
+        forwarded = all(c[1] == ('EXTRA',) and c[2] == (('depth', 1),) for c in calls)
+        ok = got == want and type(got) is type(want) and visited == order and forwarded
+        rep.add({'walk_of': what, 'returns': repr(got)[:80], 'handlers_called_for': visited, 'arguments_forwarded': forwarded, 'ok': ok})
+        if not ok:
+            rep.fail(fn.qualname, f'walk:{what}', f'NodeWalker.walk of {what}: returns {got!r} (required {want!r}), handlers called for {visited} (required {order}), extra arguments '
+                     f'forwarded: {forwarded} - a node packed in a container is not reached, reached out of order, or its result is dropped', fn.loc)
+    return rep
+
+
+RULES = [r1_child_discovery, r2_traversals, r3_attribute_names, r4_declared_bases, r5_construction, r6_dispatch_namespace, r7_generated_model_classes, r8_dispatch_history, r9_synthesis_registry, r10_no_shared_node_state, r11_walk_reaches_containers]
